@@ -15,6 +15,8 @@ import (
 	"encoding/base64"
 	"encoding/hex"
 	"fmt"
+	"math"
+	"math/big"
 	"strings"
 	"time"
 
@@ -68,6 +70,11 @@ func populate(depth int) *tmpb.Test {
 	t.Uint64Keymap = map[uint64]*tmpb.Test{1 << 63: populate(depth - 1)}
 	// keys whose octal / hexadecimal spelling (010, 0x10) reads as a different present key when
 	// misread as decimal
+	// the extreme keys of every integer kind: a literal one past a bound must not wrap onto them
+	t.Int32Keymap[math.MinInt32], t.Int32Keymap[math.MaxInt32] = populate(0), populate(0)
+	t.Int64Keymap[math.MinInt64], t.Int64Keymap[math.MaxInt64] = populate(0), populate(0)
+	t.Uint32Keymap[0], t.Uint32Keymap[math.MaxUint32] = populate(0), populate(0)
+	t.Uint64Keymap[0], t.Uint64Keymap[math.MaxUint64] = populate(0), populate(0)
 	for _, k := range []int{8, 10, 16} {
 		t.Int32Keymap[int32(k)] = populate(0)
 		t.Int64Keymap[int64(k)] = populate(0)
@@ -87,6 +94,7 @@ type genPath struct {
 	text             string
 	steps            []step
 	expectParseError bool
+	boundary         bool // ends in an integer literal at a bound of the key type
 }
 
 func keyTexts(k protoreflect.MapKey, kind protoreflect.Kind, thorough bool) []string {
@@ -204,6 +212,67 @@ func generate(md protoreflect.MessageDescriptor, m protoreflect.Message, depth i
 					emit(q)
 					if e.present && fd.MapValue().Message() != nil {
 						generate(fd.MapValue().Message(), val.Map().Get(e.k).Message(), depth-1, thorough, q, false, emit)
+					}
+				}
+			}
+			// Integer literals at and just beyond the bounds of the key type, in decimal and hex: a
+			// literal the key type cannot represent addresses no element (parse error or absent),
+			// never the element under the value it would wrap to.
+			if kind != protoreflect.StringKind && kind != protoreflect.BoolKind {
+				two := big.NewInt(2)
+				pow := func(n int64) *big.Int { return new(big.Int).Exp(two, big.NewInt(n), nil) }
+				one := big.NewInt(1)
+				var lo, hi *big.Int
+				switch kind {
+				case protoreflect.Int32Kind:
+					lo, hi = new(big.Int).Neg(pow(31)), new(big.Int).Sub(pow(31), one)
+				case protoreflect.Int64Kind:
+					lo, hi = new(big.Int).Neg(pow(63)), new(big.Int).Sub(pow(63), one)
+				case protoreflect.Uint32Kind:
+					lo, hi = big.NewInt(0), new(big.Int).Sub(pow(32), one)
+				default:
+					lo, hi = big.NewInt(0), new(big.Int).Sub(pow(64), one)
+				}
+				var lits []*big.Int
+				for _, b := range []*big.Int{lo, hi, pow(31), pow(32), pow(63), pow(64), new(big.Int).Neg(pow(31)), new(big.Int).Neg(pow(63))} {
+					for _, d := range []int64{-1, 0, 1} {
+						lits = append(lits, new(big.Int).Add(b, big.NewInt(d)))
+					}
+				}
+				seenLit := map[string]bool{}
+				for _, L := range lits {
+					L := L
+					texts := []string{L.String()}
+					if L.Sign() >= 0 {
+						texts = append(texts, "0x"+L.Text(16))
+					} else {
+						texts = append(texts, "-0x"+new(big.Int).Neg(L).Text(16))
+					}
+					for _, txt := range texts {
+						if seenLit[txt] {
+							continue
+						}
+						seenLit[txt] = true
+						inRange := L.Cmp(lo) >= 0 && L.Cmp(hi) <= 0
+						q := genPath{text: p.text + "[" + txt + "]", boundary: true, steps: append(append([]step(nil), p.steps...), step{"[" + txt + "]", func(v protoreflect.Value) (protoreflect.Value, bool) {
+							if !inRange {
+								return protoreflect.Value{}, false
+							}
+							var k protoreflect.MapKey
+							switch kind {
+							case protoreflect.Int32Kind:
+								k = protoreflect.ValueOfInt32(int32(L.Int64())).MapKey()
+							case protoreflect.Int64Kind:
+								k = protoreflect.ValueOfInt64(L.Int64()).MapKey()
+							case protoreflect.Uint32Kind:
+								k = protoreflect.ValueOfUint32(uint32(L.Uint64())).MapKey()
+							default:
+								k = protoreflect.ValueOfUint64(L.Uint64()).MapKey()
+							}
+							got := v.Map().Get(k)
+							return got, got.IsValid()
+						}})}
+						emit(q)
 					}
 				}
 			}
